@@ -21,9 +21,13 @@ Match(o, x) == CASE x.k = "free"    -> TRUE
                  [] x.k = "anyval"  -> o.k = "val"
                  [] x.k = "nopanic" -> o.k # "panic"
                  [] x.k = "oneof"   -> o \in x.set
+                 [] x.k = "pairflag" -> o.k = "pair" /\ o.f = x.f
                  [] OTHER           -> o = x
 
 Forms(e) == DOMAIN e.fo
+\* TLC passes operator arguments and LET definitions by name; binding through a singleton set
+\* forces one evaluation of an expensive exact result that several forms then share.
+Force(x) == CHOOSE v \in {x} : TRUE
 AllForms(e, x) == [f \in Forms(e) |-> x]
 
 IsMinNeg1(T, x, y) == T.s /\ x = MinOf(T) /\ y = ZNeg(ZOne)
@@ -37,7 +41,7 @@ C01Exp(e) ==
     LET T == Ty(e.w, e.s)
         a == e.a
         op == e.op
-        Proj(x) == [f \in Forms(e) |-> ByForm(f, e.mode, T, x)]
+        Proj(x) == LET v == Force(x) IN [f \in Forms(e) |-> ByForm(f, e.mode, T, v)]
     IN CASE op = "add" -> Proj(ZAdd(AV(a[1]), AV(a[2])))
          [] op = "sub" -> Proj(ZSub(AV(a[1]), AV(a[2])))
          [] op = "neg" -> Proj(ZNeg(AV(a[1])))
@@ -59,7 +63,7 @@ C02Exp(e) ==
     LET T == Ty(e.w, e.s)
         a == e.a
         op == e.op
-        Proj(x) == [f \in Forms(e) |-> ByForm(f, e.mode, T, x)]
+        Proj(x) == LET v == Force(x) IN [f \in Forms(e) |-> ByForm(f, e.mode, T, v)]
     IN CASE op = "mul" -> Proj(ZMul(AV(a[1]), AV(a[2])))
          [] op = "widening_mul" ->
               LET p == Mul(AV(a[1]).mag, AV(a[2]).mag)
@@ -139,13 +143,14 @@ IsOddNat(e) == Len(e) > 0 /\ e[1] % 2 = 1
 PowExact(T, x, e) ==
     LET cap == Pow2(T.w)
         m   == PowCapped(x.mag, e, cap)
-    IN IF m = Over THEN Over ELSE Z(x.neg /\ IsOddNat(e), m)
+    IN IF m = Over THEN [over |-> TRUE, v |-> ZZero] ELSE [over |-> FALSE, v |-> Z(x.neg /\ IsOddNat(e), m)]
 
 PowForms(e, T) ==
     LET x  == AV(e.a[1])
         ex == AN(e.a[2])
-        p  == PowExact(T, x, ex)
-        fits == p # Over /\ InRange(T, p)
+        pe == PowExact(T, x, ex)
+        p  == pe.v
+        fits == ~pe.over /\ InRange(T, p)
         wrapped == ValOf(T, PowPat(T, x, ex))
         negres == x.neg /\ IsOddNat(ex)
     IN [f \in Forms(e) |->
@@ -156,11 +161,21 @@ PowForms(e, T) ==
             [] f = "strict"      -> IF fits THEN OVal(T, p) ELSE OPanic
             [] f = "op"          -> IF fits THEN OVal(T, p) ELSE IF e.mode = "debug" THEN OPanic ELSE OVal(T, wrapped)]
 
-\* greatest k with b^k <= x, for x >= 1 and b >= 2 (k < w, so a native integer)
+\* greatest k with b^k <= x, for x >= 1 and b >= 2 (k < w, so a native integer):
+\* binary search over the monotone predicate b^k <= x.  With L = BitLen(x) and l = BitLen(b):
+\* b^k < 2^(k*l), so k0 = (L-1) div l has b^k0 <= x; b^k >= 2^(k*(l-1)), so k <= (L-1) div (l-1).
+RECURSIVE ILogSearch(_, _, _, _)
+ILogSearch(x, b, lo, hi) ==        \* invariant b^lo <= x < b^(hi+1)
+    IF lo = hi THEN lo
+    ELSE LET mid == (lo + hi + 1) \div 2
+         IN IF Le(Pow(b, mid), x) THEN ILogSearch(x, b, mid, hi) ELSE ILogSearch(x, b, lo, mid - 1)
+ILog(x, b) == LET L == BitLen(x)  l == BitLen(b)
+              IN ILogSearch(x, b, (L - 1) \div l, (L - 1) \div (l - 1))
+\* the linear definition, used by MC_L2 to cross-check the search
 RECURSIVE ILogRec(_, _, _, _)
 ILogRec(x, b, k, p) ==            \* invariant p = b^k <= x
     LET nx == Mul(p, b) IN IF Gt(nx, x) THEN k ELSE ILogRec(x, b, k+1, nx)
-ILog(x, b) == ILogRec(x, b, 0, NOne)
+ILogLinear(x, b) == ILogRec(x, b, 0, NOne)
 IsILog(k, x, b) == Le(Pow(b, k), x) /\ Lt(x, Pow(b, k+1))
 
 LogForms(e, T, x, b) ==
